@@ -212,6 +212,37 @@ theorem solo_terminates (k : Nat) (c : Cfg) (i : Nat) (t : Th) (hm : MutexInv c)
     obtain ⟨t', h1, h2⟩ := ih (c.exec (.step i)) _ (exec_mutex c _ hm) hget hoth hmeas
     exact ⟨t', by simpa [List.replicate_succ, run] using h1, h2⟩
 
+/-- **lock-freedom (system-wide progress)** — at every configuration satisfying the lock discipline in which some
+    thread has not finished, there is a thread whose next step strictly decreases its measure: the lock holder when
+    the lock is held (it never waits for anybody), any unfinished thread when it is free.  Hence a spinning thread
+    never spins for want of somebody able to make progress (no deadlock, no livelock of the whole system). -/
+theorem progress_possible (c : Cfg) (hm : MutexInv c) (hnf : c.allFinished = false) :
+    ∃ (i : Nat) (t : Th), c.th[i]? = some t ∧ t.finished = false ∧
+      (stepTh c.sh c.clock t).2.meas c.sh.n < t.meas c.sh.n := by
+  by_cases hl : c.sh.lock = true
+  · obtain ⟨i, t, hi, hc⟩ := hm.held hl
+    have hnft : t.finished = false := by
+      unfold Th.inCrit at hc
+      cases hcur : t.cur with
+      | none => rw [hcur] at hc; cases hc
+      | some f => simp [Th.finished, hcur]
+    refine ⟨i, t, hi, hnft, stepTh_meas c.sh c.clock t hnft ?_⟩
+    intro f hcur hpc
+    simp [Th.inCrit, hcur, hpc, Pc.inCrit] at hc
+  · have hl' : c.sh.lock = false := by simpa using hl
+    have : ∃ t ∈ c.th, t.finished = false := by
+      by_contra hcon
+      have : c.allFinished = true := by
+        unfold Cfg.allFinished
+        rw [List.all_eq_true]
+        intro t ht
+        by_contra h
+        exact hcon ⟨t, ht, by simpa using h⟩
+      rw [this] at hnf; cases hnf
+    obtain ⟨t, ht, hnft⟩ := this
+    obtain ⟨i, hi⟩ := List.getElem?_of_mem ht
+    exact ⟨i, t, hi, hnft, stepTh_meas c.sh c.clock t hnft (fun _ _ _ => hl')⟩
+
 /-! ## data of an expired bucket is never visible — FALSE at this granularity (known finding) -/
 
 /-- the configuration of the known finding `stale-counters-visible`: array 2×500 created at 1000, 5 passes
